@@ -318,6 +318,13 @@ func c04Families(tier string) []explore.Family {
 		if len(sc.scripts) > 2 {
 			bound = bound3
 		}
+		for _, script := range sc.scripts {
+			for _, op := range script {
+				if strings.Contains(c04Base[op.t], c04SelfName) && bound > 2 {
+					bound = 2 // ~130 scheduling points per render: the third preemption level is not explored for the 60-deep include
+				}
+			}
+		}
 		// solo results first (no scheduler)
 		want := make([][]string, len(sc.scripts))
 		for g, script := range sc.scripts {
@@ -720,7 +727,7 @@ func init() {
 		Families: c04Families,
 		Bound: func(tier string) string {
 			if tier == "thorough" {
-				return "preemption bound 3 (2 goroutines) / 2 (3 goroutines); race pass over all self, parse+render and tag-pair programs"
+				return "preemption bound 3 (2 goroutines; 2 for the 60-deep include scenario) / 2 (3 goroutines); race pass over all self, parse+render and tag-pair programs"
 			}
 			return "preemption bound 2 (2 goroutines) / 1 (3 goroutines); race pass over all self and parse+render programs"
 		},
